@@ -115,7 +115,9 @@ def step (cfg : Option Config) (line : String) : Option Config × String :=
       | _, _ => "bad-op")
   | ["J", "lexical", roots, real] => (cfg, match splitHexList roots, parseHex real with
       | some roots, some real =>
-        boolStr (roots.any fun root => root.isPrefixOf real && Spec.noDotDot (real.drop root.length))
+        boolStr (roots.any fun root =>
+          let rest := real.drop root.length
+          root.isPrefixOf real && (rest.isEmpty || rest.head? == some 47) && Spec.noDotDot rest)
       | _, _ => "bad-op")
   | ["J", "row", names, text] => (cfg, match splitHexList names, parseHex text with
       | some names, some text =>
